@@ -55,6 +55,13 @@ def r1(ctx):
     prev_ptrs = R.pointers_to(b, prev)
     flushes = {cs.bb for cs in b.calls() if cs.name == "take" and cs.fn and "Option" in cs.fn["def"]
                and (refers(cs, prev) or (cs.args and cs.args[0].get("k") in ("copy", "move") and cs.args[0]["pl"]["l"] in prev_ptrs))}
+    # a take whose payload is the receiver of Token::append reads the pending token in order to merge it: not a flush
+    merge_takes = set()
+    for app in appends:
+        for e in X.walk(O.call_args(app)[0]):
+            if e[0] == "call" and X.last_seg(e[1] or "") == "take":
+                merge_takes.add(e[4])
+    flushes = {cs.bb for cs in b.calls() if cs.bb in flushes and cs.name == "take" and cs.loc() not in merge_takes}
     if not ctx.anchor(rule, "Option::take on `previous`", sorted(flushes)):
         return
     append_blocks = {cs.bb for cs in appends}
